@@ -27,9 +27,10 @@ CLAIMS = {
     'C01': dict(
         text="Theorems (Props/C01.lean, unbounded): the executable check wfB decides the rank-form well-formedness WF (unique non-negative ids, "
              "parents present, acyclic) exactly; labelsOKB means 'label = labelOf(child count, is-root)'; navis' classify rule computes that "
-             "label for every node of every table; subset / reroot / cut (both pieces) / reclassify preserve WF for every "
-             "table and argument, and by list induction every finite history of those operations does (remove_nodes / downsample: modelled and "
-             "diffed, their WF theorems are in progress). Tie: random operation histories (7 modelled + "
+             "label for every node of every table; subset / reroot / cut (both pieces) / remove_nodes / downsample / reclassify preserve WF for every "
+             "table and argument (no side condition), and by list induction every finite operation history does; remove_nodes links each kept "
+             "node to its nearest kept ancestor; downsample keeps original ids/coordinates and every fix point; insert_nodes preserves WF "
+             "under the edge guard the code validates; re-classifying operations return fresh labels. Tie: random operation histories (7 modelled + "
              "19 watched operations, in place or on copies) on real TreeNeurons over generated forests (13 shapes × 6 labelings × 3 row "
              "orders); after every step the implementation's table is diffed against Lean applyOp on the implementation's own pre-state "
              "and the proved-sound Lean checkers wfB/labelsOKB are evaluated on the implementation's table, plus no-NaN and soma-exists.",
@@ -38,11 +39,28 @@ CLAIMS = {
              "(external). Coordinates' absence of NaN is an oracle clause.",
         technique="Lean 4 proof (rank-form invariant preserved by every operation, list induction over histories) + per-step correspondence",
         ref="§5 C01"),
+    'C05': dict(
+        text="The Lean model is the definition (walk parent links, sum edge lengths). Theorems (Props/C05.lean, unbounded): directed distance "
+             "finite iff the target lies on the source's root path (= distal_to); distance to self is 0; `limit` keeps distances equal to the "
+             "limit; adjacency is the parent relation; cable = sum of child-parent lengths; the run-time checkers segmentsOKB / "
+             "smallSegmentsOKB mean: child->parent paths whose non-last elements are a permutation of the non-root nodes (every edge in exactly "
+             "one segment), lengths non-increasing, isolated nodes as single-node segments, small segments leaf/branch -> branch/root with slabs "
+             "between. Tie: geodesic_matrix (directed, weight, from_, limit incl. limits equal to a distance), dist_between, dist_to_root, "
+             "distal_to, cable_length, adjacency matrix, segments, small_segments, segment_length of real TreeNeurons with integer edge "
+             "lengths (checked per case) on shuffled/sparse/large ids and shuffled rows, diffed exactly against the model; checkers run on navis' lists.",
+        note="csgraph.dijkstra / igraph / fastcore compute the values in navis; the model is the definition. `segments` is compared with the "
+             "greedy-longest model only when leaf depths and segment lengths have no ties (otherwise only the checker decides). Symmetry / path-sum / "
+             "model-segment correctness theorems are in progress (Proofs/SegmentLemmas.lean).",
+        technique="Lean 4 definitions + proved-sound checkers + exact differential correspondence on integer-length forests",
+        ref="§5 C05"),
     'C10': dict(
-        text="Theorems (Props/C10.lean, unbounded): subset returns exactly the requested present ids in table order, keeps the original "
+        text="Theorems (Props/C10.lean, 18, unbounded): subset returns exactly the requested present ids in table order, keeps the original "
              "parent link iff both ends survive (new root otherwise) with unchanged coordinates, and yields a well-formed, correctly "
-             "labelled forest; reroot keeps the node set and yields a well-formed forest for any target sequence (path reversal creates no "
-             "cycle); both pieces of a cut are well-formed and share exactly the cut node. Tie: navis' node table after "
+             "labelled forest; reroot keeps the node set and coordinates, makes the target a root, leaves every node off the reversed path "
+             "(hence every other fragment) untouched, permutes the undirected edge set (Perm), keeps labels correct through navis' "
+             "incremental relabel, and yields a well-formed forest for any target sequence; cut: distal piece = descendants-or-self of the "
+             "cut node, proximal = complement + cut node, pieces well-formed, share exactly the cut node and their edges are a permutation "
+             "of the original edges. Tie: navis' node table after "
              "reroot/cut/multi-cut/subset (list, set, array, mask, graph, DataFrame; prevent_fragments) is diffed against the Lean model "
              "on generated forests; the oracle evaluates every clause of the property directly on navis' output (node set, undirected "
              "edges, coordinates, cable length, root, untouched fragments, distal/proximal sets, edge partition, connectors/tags).",
